@@ -11,6 +11,7 @@ import (
 	"strings"
 	"testing"
 
+	"github.com/dave/jennifer/jen"
 	"pgregory.net/rapid"
 
 	"verif/internal/hx"
@@ -300,19 +301,83 @@ func keyText(n *recipe.Node) string {
 	return sb.String()
 }
 
+// ---- a placeholder pair that is filled after the Dict was rendered once ----
+
+type fillCase struct {
+	Keys     []string `json:"keys"`     // identifier keys of live pairs
+	HoleKey  string   `json:"holekey"`  // key of the placeholder pair
+	HoleSide string   `json:"holeside"` // "value" | "key"
+	Renders  int      `json:"renders"`  // renders before the placeholder is filled
+}
+
+func checkFill(c fillCase) error {
+	build := func(filled bool) (*jen.Statement, *jen.Statement) {
+		d := jen.Dict{}
+		for i, k := range c.Keys {
+			d[jen.Id(k)] = jen.Lit(i)
+		}
+		hole := jen.Null()
+		if filled {
+			hole = jen.Null().Lit(4242)
+		}
+		if c.HoleSide == "key" {
+			if filled {
+				hole = jen.Null().Id(c.HoleKey)
+			}
+			d[hole] = jen.Lit(4242)
+		} else {
+			d[jen.Id(c.HoleKey)] = hole
+		}
+		return jen.Var().Id("_").Op("=").Id("T").Values(d), hole
+	}
+	render := func(s *jen.Statement) (string, error) {
+		f := jen.NewFile("p")
+		f.Add(s)
+		buf := &bytes.Buffer{}
+		err := f.Render(buf)
+		return buf.String(), err
+	}
+	st, hole := build(false)
+	for i := 0; i < c.Renders; i++ {
+		if _, err := render(st); err != nil {
+			return err
+		}
+	}
+	if c.HoleSide == "key" {
+		hole.Id(c.HoleKey)
+	} else {
+		hole.Lit(4242)
+	}
+	got, err := render(st)
+	if err != nil {
+		return err
+	}
+	wantSt, _ := build(true)
+	want, err := render(wantSt)
+	if err != nil {
+		return err
+	}
+	if got != want {
+		return fmt.Errorf("a pair whose %s was a Null() placeholder was filled in after %d render(s); the Dict now renders\n%s\nbut a Dict built with the filled pair renders\n%s", c.HoleSide, c.Renders, got, want)
+	}
+	return nil
+}
+
 // ---- generator ----
 
 var idents = []string{"a", "ab", "abc", "b", "B", "_x", "x", "x1", "x10", "x2", "Zed", "é"}
-var strs = []string{"", "a", "ab", "a b", "a\"b", "b", "A", "a\n", "日本", "a.b", "a[1]"}
+var strs = []string{"", "a", "ab", "a b", "a\"b", "b", "A", "a\n", "日本", "a.b", "a[1]", "100%", "rate %d", "%%", "%!s(MISSING)"}
 
 func genKey(t *rapid.T, depth int) *recipe.Node {
-	switch rapid.IntRange(0, 10).Draw(t, "keykind") {
+	switch rapid.IntRange(0, 11).Draw(t, "keykind") {
 	case 0, 1:
 		return recipe.Id(rapid.SampledFrom(idents).Draw(t, "id"))
 	case 2:
 		return recipe.Lit(rapid.SampledFrom(strs).Draw(t, "str"))
 	case 3:
 		return recipe.Lit(rapid.IntRange(-3, 30).Draw(t, "int"))
+	case 11: // an operator expression with %
+		return recipe.Id(rapid.SampledFrom([]string{"a", "x"}).Draw(t, "modl")).C("Op", "%").C("Id", rapid.SampledFrom([]string{"b", "y"}).Draw(t, "modr"))
 	case 4: // call: f(), f(x) — legal, non-constant map keys; distinct Code values that render identically
 		n := recipe.Id(rapid.SampledFrom([]string{"f", "g", "x"}).Draw(t, "fn"))
 		var args []*recipe.Node
@@ -464,6 +529,20 @@ func TestC16(t *testing.T) {
 	defer r.Finish(t)
 	r.Rule("rapid-generated Dicts of 0..20 pairs: keys = identifiers, string/int/rune literals, calls, selectors/index expressions, qualified identifiers (paths competing for one name, with/without prefix), composite keys, with a controlled fraction of distinct Code values that render identically; values = unique Lit(1000+i), bare or wrapped (slice literal, nested Dict of 1 or 2 pairs, qualified call); null keys / null values / nil values / empty List values injected by construction; wrapped as T{...} or map[interface{}]interface{}{...}, via a map literal or DictFunc; non-trivial = >= 2 live pairs and one of: duplicate key text, key that is a prefix of another, null side, qualified key; distinct by the case")
 	r.Assume("a Dict is the only item of its Values (documented precondition); order is checked on the raw (NoFormat) key text, which is 'the rendered text of the keys' — gofmt'd text orders differently (x [1] vs x.y)")
+	hx.Rapid(r, t, hx.Check[fillCase]{Name: "fill_after_render", Fn: checkFill}, r.N(300, 3000), func(rt *rapid.T) fillCase {
+		c := fillCase{HoleKey: rapid.SampledFrom([]string{"hole", "a", "zz", "m"}).Draw(rt, "holekey"), HoleSide: rapid.SampledFrom([]string{"value", "key"}).Draw(rt, "side"), Renders: rapid.IntRange(1, 3).Draw(rt, "renders")}
+		seen := map[string]bool{c.HoleKey: true}
+		for i := rapid.IntRange(0, 5).Draw(rt, "nkeys"); i > 0; i-- {
+			k := rapid.SampledFrom(idents).Draw(rt, "k")
+			if !seen[k] {
+				seen[k] = true
+				c.Keys = append(c.Keys, k)
+			}
+		}
+		r.NonTrivial(fmt.Sprintf("%+v", c))
+		r.Class("fill_after_render")
+		return c
+	})
 	hx.Rapid(r, t, hx.Check[Case]{Name: "dict", Fn: check}, r.N(2000, 20000), func(rt *rapid.T) Case {
 		c := genCase(rt)
 		classify(r, c)
